@@ -190,15 +190,15 @@ Qed.
 
 (* each subclass (constructor normalisation, _pairwise flag, _last_satisfied) against the model leaf,
    in any cached state s, for any view *)
-Theorem gen_repeated : forall (arg n s : Z) (tr : bool) (metric : string) (v : view),
-  RepeatedMetricUp.fires arg tr metric n (hist_of tr v) = cond v (PRepeated (RUp arg) tr n s) /\
-  RepeatedMetricDown.fires arg tr metric n (hist_of tr v) = cond v (PRepeated (RDown arg) tr n s) /\
-  RepeatedMetricConverge.fires arg tr metric n (hist_of tr v) = cond v (PRepeated (r_converge arg) tr n s) /\
-  RepeatedMetricDiverge.fires arg tr metric n (hist_of tr v) = cond v (PRepeated (r_diverge arg) tr n s) /\
-  RepeatedMetricBelow.fires arg tr metric n (hist_of tr v) = cond v (PRepeated (RBelow arg) tr n s) /\
-  RepeatedMetricAbove.fires arg tr metric n (hist_of tr v) = cond v (PRepeated (RAbove arg) tr n s).
+Theorem gen_repeated : forall (arg n s : Z) (tr : bool) (mt : string) (v : view),
+  RepeatedMetricUp.fires arg tr mt n (hist_or_nil tr mt v) = cond v (PRepeated (RUp arg) tr mt n s) /\
+  RepeatedMetricDown.fires arg tr mt n (hist_or_nil tr mt v) = cond v (PRepeated (RDown arg) tr mt n s) /\
+  RepeatedMetricConverge.fires arg tr mt n (hist_or_nil tr mt v) = cond v (PRepeated (r_converge arg) tr mt n s) /\
+  RepeatedMetricDiverge.fires arg tr mt n (hist_or_nil tr mt v) = cond v (PRepeated (r_diverge arg) tr mt n s) /\
+  RepeatedMetricBelow.fires arg tr mt n (hist_or_nil tr mt v) = cond v (PRepeated (RBelow arg) tr mt n s) /\
+  RepeatedMetricAbove.fires arg tr mt n (hist_or_nil tr mt v) = cond v (PRepeated (RAbove arg) tr mt n s).
 Proof.
-  intros arg n s tr metric v. unfold cond. cbn [step fst]. unfold leaf_count.
+  intros arg n s tr mt v. unfold cond. cbn [step fst]. unfold leaf_count.
   repeat split.
   - unfold RepeatedMetricUp.fires, RepeatedMetricUp.pairwise. rewrite gen_condition_pairwise. reflexivity.
   - unfold RepeatedMetricDown.fires, RepeatedMetricDown.pairwise. rewrite gen_condition_pairwise. reflexivity.
@@ -208,11 +208,34 @@ Proof.
   - unfold RepeatedMetricAbove.fires, RepeatedMetricAbove.pairwise. rewrite gen_condition_single. reflexivity.
 Qed.
 
-(* the history key the callbacks build (the open finding: the solver stores custom metrics under phase__name) *)
-Theorem gen_key : forall metric,
-  RepeatedMetricChange.init_key true metric 0 = String.append "train_" metric /\
-  RepeatedMetricChange.init_key false metric 0 = String.append "valid_" metric.
-Proof. intros metric. split; reflexivity. Qed.
+(* ---- which series is read: the helper _metric_history and the key built in __init__ ---- *)
+
+Lemma gen_dict_get : forall d k, Gen_C16.dict_get d k = Callbacks.dict_get d k.
+Proof. induction d as [|[k0 h] r IH]; intros k; [reflexivity|]. cbn [Gen_C16.dict_get Callbacks.dict_get]. rewrite IH. reflexivity. Qed.
+
+Lemma gen_partition : forall s, Gen_C16.partition_us s = Callbacks.partition_us s.
+Proof. induction s as [|c r IH]; [reflexivity|]. cbn [Gen_C16.partition_us Callbacks.partition_us]. rewrite IH. reflexivity. Qed.
+
+Theorem gen_metric_history : forall d key, MetricHistory.metric_history d key = Callbacks.metric_history d key.
+Proof.
+  intros d key. unfold MetricHistory.metric_history, Callbacks.metric_history, Callbacks.lookup_key, Gen_C16.dict_has, Callbacks.dict_has.
+  rewrite !gen_dict_get, gen_partition. destruct (Callbacks.dict_get d key) eqn:E.
+  - rewrite E. reflexivity.
+  - destruct (Callbacks.partition_us key) as [a b]. reflexivity.
+Qed.
+
+(* the callbacks look their key up through the helper, with the key their constructor built *)
+Theorem gen_history_of : forall (tr : bool) (mt : string) (n : Z) (v : view) (v0 p : R) (n_0 : Z) (n_max : option Z),
+  RepeatedMetricChange.history_of (store_of v) (RepeatedMetricChange.init_key tr mt n) = hist_of tr mt v /\
+  EveCallback.history_of (store_of v) (EveCallback.init_key v0 p n_0 n_max tr mt) = hist_of tr mt v.
+Proof.
+  intros tr mt n v v0 p n_0 n_max. unfold RepeatedMetricChange.history_of, EveCallback.history_of, hist_of.
+  rewrite !gen_metric_history. split; destruct tr; reflexivity.
+Qed.
+
+Theorem gen_key : forall tr metric n,
+  RepeatedMetricChange.init_key tr metric n = callback_key tr metric.
+Proof. intros tr metric n. destruct tr; reflexivity. Qed.
 
 (* ---- set-once guards and the optimiser's parameter sequence --------------------------- *)
 
